@@ -39,10 +39,29 @@ def read_nifti_image(path: PathUri) -> Tuple[Tensor, Grid]:
     with StorageObject.from_path(path) as obj:
         obj.pull(force=True)
         image = nib.load(obj.path)
-    # Image sampling grid attributes
+    # Number of used image dimensions
+    # https://github.com/InsightSoftwareConsortium/ITK/blob/3454d857dc46e4333ad1178be8c186547fba87ef/Modules/IO/NIFTI/src/itkNiftiImageIO.cxx#L1112-L1156
     dim = np.asarray(image.header["dim"])
     ndim = int(dim[0])
-    D = min(ndim, 3)
+    intent_code = int(image.header["intent_code"])
+    if intent_code in (1005, 1006, 1007):
+        # Vector or matrix valued image
+        for realdim in range(4, 1, -1):
+            if dim[realdim] > 1:
+                break
+        else:
+            realdim = 1
+    elif intent_code == 1004:
+        raise NotImplementedError(
+            f"{path} has an intent code of NIFTI_INTENT_GENMATRIX which is not yet implemented"
+        )
+    else:
+        # Scalar image
+        realdim = ndim
+        while realdim > 3 and dim[realdim] == 1:
+            realdim -= 1
+    # Image sampling grid attributes
+    D = min(realdim, 3)
     size = dim[1 : D + 1]
     spacing = np.asarray(image.header["pixdim"][1 : D + 1])
     affine = np.asarray(image.affine)
@@ -62,26 +81,7 @@ def read_nifti_image(path: PathUri) -> Tuple[Tensor, Grid]:
         data: np.ndarray = image.get_fdata()
     else:
         data: np.ndarray = image.dataobj.get_unscaled()
-    # Squeeze unused dimensions
-    # https://github.com/InsightSoftwareConsortium/ITK/blob/3454d857dc46e4333ad1178be8c186547fba87ef/Modules/IO/NIFTI/src/itkNiftiImageIO.cxx#L1112-L1156
-    intent_code = int(image.header["intent_code"])
-    if intent_code in (1005, 1006, 1007):
-        # Vector or matrix valued image
-        for realdim in range(4, 1, -1):
-            if dim[realdim] > 1:
-                break
-        else:
-            realdim = 1
-    elif intent_code == 1004:
-        raise NotImplementedError(
-            f"{path} has an intent code of NIFTI_INTENT_GENMATRIX which is not yet implemented"
-        )
-    else:
-        # Scalar image
-        realdim = ndim
-        while realdim > 3 and dim[realdim] == 1:
-            realdim -= 1
-    data = np.reshape(data, data.shape[:realdim] + data.shape[5:])
+    data = np.reshape(data, data.shape[:realdim] + data.shape[4:])
     # Reverse order of axes
     data = np.transpose(data, axes=tuple(reversed(range(data.ndim))))
     # Add leading channel dimension
